@@ -617,4 +617,107 @@ theorem ping_unanswered_closes (s : St) (h : Inv s) (ht : s.pingThread = true) (
     · rw [e]
       exact ⟨rfl, rfl⟩
 
+/-! `unknownErrRaises` is a configuration field: no transition changes it. -/
+
+theorem createConnection_unknownErrRaises (s : St) :
+    (createConnection s).1.unknownErrRaises = s.unknownErrRaises := by
+  unfold createConnection
+  split <;> rfl
+
+theorem onDisconnected_unknownErrRaises (s : St) :
+    (onDisconnected s).1.unknownErrRaises = s.unknownErrRaises := by
+  unfold onDisconnected
+  split <;> rfl
+
+theorem handleClose_unknownErrRaises (s : St) (d : Nat) :
+    (handleClose s d).1.unknownErrRaises = s.unknownErrRaises := by
+  unfold handleClose
+  split
+  · rfl
+  · split
+    · rfl
+    · exact onDisconnected_unknownErrRaises _
+
+theorem destroyConnection_unknownErrRaises (s : St) :
+    (destroyConnection s).1.unknownErrRaises = s.unknownErrRaises := by
+  unfold destroyConnection
+  split
+  · rfl
+  · split
+    · rfl
+    · dsimp only
+      split
+      · rfl
+      · exact onDisconnected_unknownErrRaises _
+
+theorem disconnectEvent_unknownErrRaises (s : St) :
+    (disconnectEvent s).1.unknownErrRaises = s.unknownErrRaises := by
+  unfold disconnectEvent
+  exact destroyConnection_unknownErrRaises _
+
+theorem loopOne_unknownErrRaises (s : St) :
+    (loopOne s).1.unknownErrRaises = s.unknownErrRaises := by
+  unfold loopOne
+  split
+  · rfl
+  · dsimp only
+    split
+    · exact createConnection_unknownErrRaises _
+    · rfl
+
+theorem drain_unknownErrRaises (n : Nat) : ∀ (s : St),
+    (drain s n).1.unknownErrRaises = s.unknownErrRaises := by
+  induction n with
+  | zero => intro s; rfl
+  | succ n ih =>
+    intro s
+    simp only [drain]
+    exact (ih _).trans (loopOne_unknownErrRaises s)
+
+theorem step_unknownErrRaises (s : St) (i : In) : (step s i).1.unknownErrRaises = s.unknownErrRaises := by
+  cases i with
+  | connectReq => exact createConnection_unknownErrRaises { s with }
+  | connectEvt =>
+    simp only [step]
+    split
+    · exact createConnection_unknownErrRaises s
+    · rfl
+  | dConnected d =>
+    simp only [step]
+    split
+    · rfl
+    · split <;> rfl
+  | dClosed d => exact handleClose_unknownErrRaises s d
+  | disconnectReq => exact disconnectEvent_unknownErrRaises s
+  | success => rfl
+  | failure => exact disconnectEvent_unknownErrRaises s
+  | streamError k =>
+    simp only [step]
+    split
+    · rfl
+    · exact disconnectEvent_unknownErrRaises _
+  | pingTick =>
+    simp only [step]
+    split
+    · rfl
+    · split
+      · exact disconnectEvent_unknownErrRaises _
+      · split
+        · split <;> rfl
+        · rfl
+  | pong fresh =>
+    simp only [step]
+    split <;> rfl
+  | loop => exact drain_unknownErrRaises s.pendingDown s
+  | appSend =>
+    simp only [step]
+    split
+    · split <;> rfl
+    · rfl
+
+theorem run_unknownErrRaises (s : St) (is : List In) : (run s is).1.unknownErrRaises = s.unknownErrRaises := by
+  induction is generalizing s with
+  | nil => rfl
+  | cons i is ih => exact (ih _).trans (step_unknownErrRaises s i)
+
 end Yow.Life
